@@ -357,12 +357,32 @@ fn activity(e: &ChannelError<std::io::Error>) -> &'static str {
 pub fn make_request(base: Instant, id: u64, dl: u64, tr: u64, body: u64) -> Request<u64> {
     let mut ctx = context::current();
     ctx.deadline = base + Duration::from_millis(dl);
-    ctx.trace_context = trace::Context {
-        trace_id: trace::TraceId::from(tr as u128),
-        span_id: trace::SpanId::from(0u64),
-        sampling_decision: trace::SamplingDecision::Unsampled,
-    };
+    ctx.trace_context = trace_ctx(tr);
     Request { context: ctx, id, message: body }
+}
+
+/// The script's single trace number carries both halves of the propagated trace context:
+/// `tr = 2 * trace_id + (1 if Sampled else 0)`.  The span id on the wire is 0; the server draws
+/// its own (`new_child`), so a span id is never part of an observation.
+pub fn trace_ctx(tr: u64) -> trace::Context {
+    trace::Context {
+        trace_id: trace::TraceId::from((tr >> 1) as u128),
+        span_id: trace::SpanId::from(0u64),
+        sampling_decision: if tr & 1 == 1 {
+            trace::SamplingDecision::Sampled
+        } else {
+            trace::SamplingDecision::Unsampled
+        },
+    }
+}
+
+/// Inverse of `trace_ctx` on what the code under test hands back (trace id and sampling decision).
+pub fn trace_num(c: &trace::Context) -> u64 {
+    let bit = match c.sampling_decision {
+        trace::SamplingDecision::Sampled => 1,
+        trace::SamplingDecision::Unsampled => 0,
+    };
+    ((u128::from(c.trace_id) as u64) << 1) | bit
 }
 
 pub fn ms_since(base: Instant, t: Instant) -> u64 {
@@ -422,11 +442,11 @@ pub fn drive(
         ClientMessage::Request(r) => Recv::Req {
             id: r.id,
             dl: ms_since(base, r.context.deadline),
-            tr: u128::from(r.context.trace_context.trace_id) as u64,
+            tr: trace_num(&r.context.trace_context),
             body: r.message,
         },
         ClientMessage::Cancel { trace_context, request_id } => {
-            Recv::Cancel { id: *request_id, tr: u128::from(trace_context.trace_id) as u64 }
+            Recv::Cancel { id: *request_id, tr: trace_num(trace_context) }
         }
         _ => Recv::Cancel { id: u64::MAX, tr: 0 },
     });
@@ -617,11 +637,9 @@ pub fn drive(
                             let k = slots.len();
                             let rq = ifr.get();
                             let (id, dl) = (rq.id, ms_since(base, rq.context.deadline));
-                            o.push(format!(
-                                "OYield {k} {id} {dl} {} {}",
-                                u128::from(rq.context.trace_context.trace_id) as u64,
-                                rq.message
-                            ));
+                            let ytr = trace_num(&rq.context.trace_context);
+                            o.push(format!("OYield {k} {id} {dl} {ytr} {}", rq.message));
+                            tags.insert(if ytr & 1 == 1 { "yield-sampled" } else { "yield-unsampled" }.into());
                             shadow.push(Shadow { id, dl, phase: Phase::NotStarted });
                             slots.push(Slot::Yielded(ifr));
                             tags.insert("yield".into());
@@ -694,11 +712,7 @@ pub fn drive(
             }
             Op::Cancel { id, tr } => {
                 ctl.deliver(ClientMessage::Cancel {
-                    trace_context: trace::Context {
-                        trace_id: trace::TraceId::from(*tr as u128),
-                        span_id: trace::SpanId::from(0u64),
-                        sampling_decision: trace::SamplingDecision::Unsampled,
-                    },
+                    trace_context: trace_ctx(*tr),
                     request_id: *id,
                 });
             }
